@@ -5,7 +5,7 @@
      thresholds, 1-4 workers, many schedules; every protocol trace is replayed through the extracted lstep
      (must be accepted, must end all-dead); every result is checked (sorted, permutation, exact LCP); ASan/UBSan.
  (3) thorough: free-running real threads with the default parameters on large inputs (incl. > 1M strings)."""
-import json, os, sys
+import json, os, re, sys
 HERE = os.path.dirname(os.path.abspath(__file__))
 sys.path.insert(0, os.path.join(HERE, "..", "lib"))
 import verif
@@ -72,6 +72,11 @@ else:
         nsched = 6 if ck.thorough() else 3
         cases.append("g%d_%s %s %d %d %s %d %d %s" % (k, kind, params, workers, lcp, st, nsched, rng.below(1 << 30), ",".join(hx(s) for s in strs) if strs else "-"))
         dist[kind] = dist.get(kind, 0) + 1
+    # pool start-up / tear-down interleavings: tiny inputs, many schedules (the sort itself is over after a few events,
+    # so most scheduling choices fall into ThreadPool construction, loop_until_empty and destruction)
+    for k, (w, n) in enumerate([(2, 1), (2, 3), (3, 2), (4, 5)]):
+        strs = gen_strings(rng, "small_alpha", n)
+        cases.append("td%d T %d %d c %d %d %s" % (k, w, k % 2, 400 if ck.thorough() else 120, rng.below(1 << 30), ",".join(hx(s) for s in strs) if strs else "-"))
     # default parameters under the shim (small job only) -- exercises the public default path deterministically
     for k in range(6):
         strs = gen_strings(rng, KINDS[k % len(KINDS)], rng.range(0, 300))
@@ -94,9 +99,9 @@ def translate(pt):
     toks = []; pending = {}   # tid -> parent id awaited after a 'notify'
     ncreate = 0
     for t in pt.split():
+        if not re.fullmatch(r"\d+:[a-z]+:-?\d+(:-?\d+)?", t):
+            return toks, "GARBLED"     # sanitizer / abort output interleaved with the trace: handled by the crash path
         f = t.split(":")
-        if len(f) < 3:
-            return toks, "malformed hook token %r" % t
         tid, kind, sid = f[0], f[1], int(f[2])
         if sid < 0:
             return toks, "event '%s' on a step that is not alive (touched after its release)" % t
@@ -129,14 +134,24 @@ else:
         for l in runs:
             head, _, pt = l.partition(" PT ")
             hf = head.split(None, 3)
+            if len(hf) < 4 or not hf[2].isdigit():
+                continue
             cid, r, verdict = hf[1], hf[2], hf[3]
             nruns += 1
+            if verdict != "OK" and not (verdict.startswith("FAIL ") or rc == 0):
+                continue      # garbled line of a crashing run: the crash path below reports it
             if verdict != "OK":
                 found = True
                 ck.violation("parallel sample sort result violates the property (%s) case %s schedule %s" % (verdict, cid, r),
                              {"case": case_by_id.get(cid), "schedule_index": int(r), "verdict": verdict})
                 if ck.violations >= 3: break
             toks, err = translate(pt)
+            if err == "GARBLED":
+                if rc == 0:
+                    ck.violation("unreadable protocol trace", {"correspondence": "hook trace format", "case": case_by_id.get(cid), "trace": pt[-800:]}, no_input=True)
+                continue
+            if verdict != "OK" and rc != 0 and not verdict.startswith("FAIL "):
+                continue
             if err:
                 found = True
                 ck.violation("protocol trace of the real code: " + err, {"case": case_by_id.get(cid), "schedule_index": int(r), "trace": pt[-1500:]})
